@@ -29,7 +29,7 @@ RULE = ('Each case = a generated dense-template dataset {raw data int16/float32 
         'the source directory before/after (allowed: temp_wh.dat deleted, _phy_spikes_subset.* added). '
         'non-trivial = distinct conversions with a label, or curated clusters with an empty id, or raw data.')
 EXHAUSTIVE = {'quick': False, 'thorough': False}
-FLOORS = {'quick': {'evaluations': 280, 'distinct_nontrivial': 150},
+FLOORS = {'quick': {'evaluations': 600, 'distinct_nontrivial': 300},
           'thorough': {'evaluations': 9000, 'distinct_nontrivial': 5000}}
 ASSUMPTIONS = ['ids below 65536 (the export stores them as uint16)',
                'with a multi-probe channel table the reloaded channel map is the per-probe re-expressed one '
@@ -42,7 +42,7 @@ REQUIRED = {'spikes': ['times', 'samples', 'amps', 'depths', 'clusters', 'templa
 
 
 def plan(tier, seed):
-    n = 304 if tier == 'quick' else 10000
+    n = 640 if tier == 'quick' else 10000
     return [{'shard': i, 'n': NSHARDS, 'seed': seed, 'cases': n // NSHARDS} for i in range(NSHARDS)]
 
 
